@@ -32,6 +32,25 @@ def run(ctx):
     from rules.C05 import failed_first
     failed_first(ctx, "R1.1")
     dirt.nonclean_propagates(ctx, "R1.2")
+    ctx.rule("R1.7", "the per-run 'already checked' memo is consulted only after the failed / never-built / changed-later-than-parent tests")
+    dirt.memo_placement(ctx, "R1.7")
+    ctx.rule("R1.8", "REDO_UNLOCKED (under which redo-ifchange records no dependency edges) does not leak to the processes below the re-evaluated target")
+    from rules.C06 import env_setters, env_set_value
+    inh = prog.one(r"env::Env::inherit")
+    iba = BA.of(inh)
+    clears = [i for (b, i) in env_setters(prog, "REDO_UNLOCKED") if b.key == inh.key and env_set_value(b, i) == ""]
+    oks = [i for i, _, st_ in anchors.agg_sites(inh, r"core::result::Result") if st_["rv"]["variant"] == "Ok"]
+    p_ = iba.path([0], oks, avoid=frozenset(clears), incl=True) if oks else [0]
+    ctx.ob("R1.8", "Env::inherit|REDO_UNLOCKED-not-inherited", bool(clears) and p_ is None, where=inh.span,
+           detail="REDO_UNLOCKED is reset before every Ok return of Env::inherit" if clears and p_ is None else
+           "REDO_UNLOCKED leaks below the re-evaluated target: every redo-ifchange inside its .do skips recording dependency edges, so the rebuilt target forgets its inputs")
+    # and redo-ifchange's edge recording is skipped only for that flag / at top level
+    I2 = prog.one(r"@bin::ifchange::run::\{closure#0\}")
+    i2 = BA.of(I2)
+    unl = i2.switches_on_call(r"env::Env::is_unlocked")
+    adds2 = i2.calls(r"state::File::add_dep")
+    ok = bool(unl) and bool(adds2) and all(any(i2.edge_dominates((sw, f_t), a) or i2.path([f_t], [a], incl=True) for (sw, t_t, f_t, c) in unl) for a in adds2)
+    ctx.ob("R1.8", "%s|edges-skipped-only-when-unlocked" % I2.key, ok, where=I2.span, detail="the add_dep loop is reached on the not-unlocked side of the is_unlocked() test")
 
     # ---- R1.3
     I = prog.one(r"@bin::ifchange::run::\{closure#0\}")
